@@ -24,12 +24,30 @@ Model: `Wf/Model/Merkle.lean` (see `Wf/Props/C18.lean`).  The hash function is a
   `verify_batch` accept only if the index list is non-empty, duplicate-free, in range and EVERY
   supplied leaf is the tree's leaf at its claimed index.  The depth byte must be the tree's depth:
   `verify_batch` itself does not bind it (the callers compare `1 << depth` with the domain size).
-  `verify_batch_accepts_only_the_trees_nodes`: an accepted proof has exactly as many node vectors
-  as the proof `prove_batch` returns and each of its vectors STARTS WITH the corresponding vector
-  of that proof (every node `get_root` reads is the tree's node; nodes appended after them are
-  never read, so they cannot matter); `batch_wrong_proof_node_rejected` is the substitution form.
+  `verify_batch_accepts_only_the_provers_proof`: accepted (leaves, proof) ARE the output of
+  `prove_batch` for these indexes (every node `get_root` reads is the tree's node, - fix f1ad895 -
+  every supplied node is read, - fix af69a4d - there is exactly one leaf per index); `verify_batch_accepts_only_the_trees_nodes` is its node-vector
+  form, `batch_wrong_proof_node_rejected` the substitution form.
+* LEAF COUNT (fix af69a4d in /repo: `get_root` returns `InvalidProof` unless
+  `indexes.len() == leaves.len()`, right after the emptiness check; before, leaves beyond the
+  number of indexes were ignored, so an opening with surplus leaves verified):
+  `get_root_rejects_leaf_count_mismatch`, `get_root_accepts_only_one_leaf_per_index` (any proof, any
+  `merge`); the soundness theorems now conclude `lv.length = idxs.length`, and
+  `verify_batch_accepts_only_the_provers_proof` concludes `prove_batch idxs = ok (lv, p')`.
+* CONSUMPTION (fix f1ad895 in /repo: `get_root` returns `InvalidProof` unless
+  `proof_pointers[i] == nodes[i].len()` for every `i` after the walk; before, a digest appended to
+  a node vector was never looked at and the padded proof opened the same leaves against the same
+  root).  These theorems need NO tree and NO property of `merge`:
+  `get_root_rejects_appended_nodes` (any accepted proof, any vector, any non-empty list of
+  digests appended: `InvalidProof` from `get_root` and `verify_batch`),
+  `get_root_rejects_proper_extensions` (several vectors extended at once),
+  `get_root_accepts_one_length_variant` (non-malleability in the lengths: two accepted proofs for
+  the same indexes/leaves whose vectors are pairwise prefix-comparable are equal - this covers
+  "one vector longer, another one shorter").
+  `into_openings` has no such check in /repo (it is not a verification function; its result is
+  re-verified opening by opening); the model mirrors that.
 -/
-import Wf.Lemmas.MerkleSound
+import Wf.Lemmas.MerkleConsume
 namespace Wf.Props.C19
 open Wf Wf.Merkle
 
@@ -169,27 +187,64 @@ theorem into_openings_never_panics (merge : D → D → D) (p : BatchProof D) (i
     (lv : List D) : p.intoOpenings merge lv idxs ≠ .abort :=
   intoOpenings_noabort merge p idxs lv
 
-/-- an empty index list, an index `≥ 2^depth` (as `usize`) and — all in range — a duplicate index
-make `get_root` and `verify_batch` return the documented error -/
+/-- LEAF COUNT (fix af69a4d).  For ANY proof, ANY `merge`, ANY root: a non-empty index list with a
+different number of leaves — surplus leaves as well as missing ones — makes `get_root` and
+`verify_batch` return `InvalidProof` (before the fix, surplus leaves were silently ignored). -/
+theorem get_root_rejects_leaf_count_mismatch [DecidableEq D] (merge : D → D → D) (root : D)
+    (p : BatchProof D) (idxs : List Nat) (lv : List D) (hne : idxs ≠ [])
+    (hlen : idxs.length ≠ lv.length) :
+    p.getRoot merge idxs lv = .err .invalid ∧ verifyBatch merge root idxs lv p = .err .invalid := by
+  have hie : idxs.isEmpty = false := by cases idxs <;> simp_all
+  have hg : p.getRoot merge idxs lv = .err .invalid := by
+    simp [BatchProof.getRoot, hie, hlen]
+  exact ⟨hg, by simp [verifyBatch, hg]⟩
+
+/-- acceptance form: whatever `get_root` / `verify_batch` accept comes with exactly one leaf per
+index (and at least one index) -/
+theorem get_root_accepts_only_one_leaf_per_index [DecidableEq D] (merge : D → D → D) (root : D)
+    (p : BatchProof D) (idxs : List Nat) (lv : List D) :
+    (∀ r, p.getRoot merge idxs lv = .ok r → idxs ≠ [] ∧ lv.length = idxs.length) ∧
+    (verifyBatch merge root idxs lv p = .ok () → idxs ≠ [] ∧ lv.length = idxs.length) := by
+  have key : ∀ r, p.getRoot merge idxs lv = .ok r → idxs ≠ [] ∧ lv.length = idxs.length := by
+    intro r hg
+    obtain ⟨hie, hlv, _⟩ := getRoot_ok_inv merge p idxs lv r hg
+    exact ⟨by intro h; subst h; simp at hie, hlv.symm⟩
+  refine ⟨key, ?_⟩
+  intro hv
+  unfold verifyBatch at hv
+  split at hv
+  · cases hv
+  · cases hv
+  · rename_i r' hr'
+    exact key r' hr'
+
+/-- the documented errors, in the order the code tests them: an empty index list is
+`TooFewLeafIndexes`; then (fix af69a4d) a leaf count other than the index count is `InvalidProof`;
+then — one leaf per index — an index `≥ 2^depth` (as `usize`) is `LeafIndexOutOfBounds` and,
+all in range, a duplicate index is `DuplicateLeafIndex` -/
 theorem batch_bad_indexes_are_errors [DecidableEq D] (merge : D → D → D) (root : D)
     (p : BatchProof D) (idxs : List Nat) (lv : List D) :
     (idxs = [] → p.getRoot merge idxs lv = .err .tooFewIdx ∧
         verifyBatch merge root idxs lv p = .err .tooFewIdx) ∧
-    (idxs ≠ [] → (∃ i ∈ idxs, pow2usize p.depth ≤ i) → p.getRoot merge idxs lv = .err .oob ∧
-        verifyBatch merge root idxs lv p = .err .oob) ∧
-    (idxs ≠ [] → (∀ i ∈ idxs, i < pow2usize p.depth) → ¬ idxs.Nodup →
+    (idxs ≠ [] → idxs.length ≠ lv.length → p.getRoot merge idxs lv = .err .invalid ∧
+        verifyBatch merge root idxs lv p = .err .invalid) ∧
+    (idxs ≠ [] → idxs.length = lv.length → (∃ i ∈ idxs, pow2usize p.depth ≤ i) →
+        p.getRoot merge idxs lv = .err .oob ∧ verifyBatch merge root idxs lv p = .err .oob) ∧
+    (idxs ≠ [] → idxs.length = lv.length → (∀ i ∈ idxs, i < pow2usize p.depth) → ¬ idxs.Nodup →
         p.getRoot merge idxs lv = .err .dup ∧ verifyBatch merge root idxs lv p = .err .dup) := by
-  refine ⟨?_, ?_, ?_⟩
+  refine ⟨?_, ?_, ?_, ?_⟩
   · intro h; subst h; simp [BatchProof.getRoot, verifyBatch]
-  · intro hne hob
+  · intro hne hlen
+    exact get_root_rejects_leaf_count_mismatch merge root p idxs lv hne hlen
+  · intro hne hlen hob
     have hie : idxs.isEmpty = false := by cases idxs <;> simp_all
     have hg : p.getRoot merge idxs lv = .err .oob := by
-      simp [BatchProof.getRoot, hie, grRun, mapIndexes_oob idxs p.depth hob]
+      simp [BatchProof.getRoot, hie, hlen, grRun, mapIndexes_oob idxs p.depth hob]
     exact ⟨hg, by simp [verifyBatch, hg]⟩
-  · intro hne hr hnd
+  · intro hne hlen hr hnd
     have hie : idxs.isEmpty = false := by cases idxs <;> simp_all
     have hg : p.getRoot merge idxs lv = .err .dup := by
-      simp [BatchProof.getRoot, hie, grRun, mapIndexes_dup idxs p.depth hr hnd]
+      simp [BatchProof.getRoot, hie, hlen, grRun, mapIndexes_dup idxs p.depth hr hnd]
     exact ⟨hg, by simp [verifyBatch, hg]⟩
 
 /-- the same inputs make `into_openings` return an error (the length check comes first) -/
@@ -209,33 +264,42 @@ theorem into_openings_bad_indexes_are_errors (merge : D → D → D) (p : BatchP
       · exact ⟨.dup, by simp [BatchProof.intoOpenings, hie, hl, grRun, mapIndexes_dup idxs p.depth h.1 h.2]⟩
 
 /-- with a depth byte `≥ 64` every non-empty index list is "out of range" (`2usize.pow` wraps to 0
-in a release build), so all three entry points return an error -/
+in a release build), so `get_root` / `verify_batch` return an error for EVERY input:
+`LeafIndexOutOfBounds` with one leaf per index, `InvalidProof` otherwise -/
 theorem batch_depth_ge_64_is_error [DecidableEq D] (merge : D → D → D) (root : D)
     (p : BatchProof D) (hd : 64 ≤ p.depth) (idxs : List Nat) (hne : idxs ≠ []) (lv : List D) :
-    p.getRoot merge idxs lv = .err .oob ∧ verifyBatch merge root idxs lv p = .err .oob := by
+    p.getRoot merge idxs lv = .err (if idxs.length = lv.length then .oob else .invalid) ∧
+    verifyBatch merge root idxs lv p =
+      .err (if idxs.length = lv.length then .oob else .invalid) := by
   have hz : pow2usize p.depth = 0 := by
     unfold pow2usize
     obtain ⟨k, hk⟩ : ∃ k, p.depth = 64 + k := ⟨p.depth - 64, by omega⟩
     rw [hk, Nat.pow_add]; exact Nat.mul_mod_right _ _
-  obtain ⟨i, rest, rfl⟩ : ∃ i rest, idxs = i :: rest := by
-    cases idxs with
-    | nil => exact absurd rfl hne
-    | cons a b => exact ⟨a, b, rfl⟩
-  exact (batch_bad_indexes_are_errors merge root p (i :: rest) lv).2.1 hne
-    ⟨i, by simp, by rw [hz]; omega⟩
+  by_cases hlen : idxs.length = lv.length
+  · rw [if_pos hlen]
+    obtain ⟨i, rest, rfl⟩ : ∃ i rest, idxs = i :: rest := by
+      cases idxs with
+      | nil => exact absurd rfl hne
+      | cons a b => exact ⟨a, b, rfl⟩
+    exact (batch_bad_indexes_are_errors merge root p (i :: rest) lv).2.2.1 hne hlen
+      ⟨i, by simp, by rw [hz]; omega⟩
+  · rw [if_neg hlen]
+    exact get_root_rejects_leaf_count_mismatch merge root p idxs lv hne hlen
 
 /-! ## Batch verification: rejection under injectivity -/
 
 /-- SOUNDNESS of `verify_batch`: for any proof nodes whatsoever (depth byte = the tree's depth),
 acceptance against the tree's root implies that the index list is non-empty, duplicate-free and in
-range and that every supplied leaf is the tree's leaf at the claimed position. -/
+range, that there is exactly one leaf per index (fix af69a4d) and that every supplied leaf is the
+tree's leaf at the claimed position — i.e. `lv` is exactly `[L[i] | i ∈ idxs]`. -/
 theorem verify_batch_accepts_only_true_leaves [Inhabited D] [DecidableEq D] (merge : D → D → D)
     (inj : MergeInjective merge) (L : List D) (t : Tree D) (ht : Tree.new merge L = .ok t)
     (h64 : L.length < 2 ^ 64) (r : D) (hr : t.root = .ok r) (p : BatchProof D)
     (hp : p.depth = t.depth) (idxs : List Nat) (lv : List D)
     (hv : verifyBatch merge r idxs lv p = .ok ()) :
-    idxs ≠ [] ∧ idxs.Nodup ∧ (∀ i ∈ idxs, i < L.length) ∧
+    idxs ≠ [] ∧ idxs.Nodup ∧ (∀ i ∈ idxs, i < L.length) ∧ lv.length = idxs.length ∧
       ∀ (j i : Nat), idxs[j]? = some i → lv[j]? = L[i]? := by
+  have hcount := (get_root_accepts_only_one_leaf_per_index merge r p idxs lv).2 hv
   obtain ⟨d, hd, hl, H⟩ := new_heap merge L t ht
   have hd64 : d < 64 := by
     rw [hd] at h64
@@ -255,7 +319,7 @@ theorem verify_batch_accepts_only_true_leaves [Inhabited D] [DecidableEq D] (mer
         have : heapFn t 1 = r' := Classical.byContradiction fun hc => hne hc
         rw [hr', this]
   obtain ⟨h1, h2, h3, h4⟩ := getRoot_sound H inj hd64 p (by rw [hp, heap_depth H]) idxs lv hg
-  refine ⟨h1, h2, fun i hi => by have := h3 i hi; omega, ?_⟩
+  refine ⟨h1, h2, fun i hi => by have := h3 i hi; omega, hcount.2, ?_⟩
   intro j i hj
   have hi := h3 i (List.mem_of_getElem? hj)
   rw [h4 j i hj, ← hl, H.leaf i hi]
@@ -274,19 +338,20 @@ theorem batch_wrong_leaf_or_index_rejected [Inhabited D] [DecidableEq D] (merge 
   | abort => exact absurd hv (verifyBatch_noabort merge r p idxs lv)
   | ok u =>
     cases u
-    exact absurd ((verify_batch_accepts_only_true_leaves merge inj L t ht h64 r hr p hp idxs lv hv).2.2.2
+    exact absurd ((verify_batch_accepts_only_true_leaves merge inj L t ht h64 r hr p hp idxs lv hv).2.2.2.2
       j i hj) hbad
 
-/-- SOUNDNESS w.r.t. the proof nodes: an accepted batch proof (depth byte = the tree's depth) has
-the same number of node vectors as the proof `prove_batch` returns for these indexes, and each of
-its vectors begins with the corresponding vector of that proof -/
-theorem verify_batch_accepts_only_the_trees_nodes [Inhabited D] [DecidableEq D]
+/-- SOUNDNESS, complete form: what `verify_batch` accepts against the tree's root (depth byte = the
+tree's depth) is EXACTLY the output of `prove_batch` for these indexes, leaves and proof — every
+node that is read is the tree's node, (fix f1ad895) every supplied node is read, every leaf is the
+tree's leaf and (fix af69a4d) no leaf is surplus.  With `batch_opening_reconstructs_root` (C18):
+`verify_batch r idxs lv p = ok` ⟺ `prove_batch idxs = ok (lv, p)` for proofs of the tree's depth. -/
+theorem verify_batch_accepts_only_the_provers_proof [Inhabited D] [DecidableEq D]
     (merge : D → D → D) (inj : MergeInjective merge) (L : List D) (t : Tree D)
     (ht : Tree.new merge L = .ok t) (h64 : L.length < 2 ^ 64) (r : D) (hr : t.root = .ok r)
     (p' : BatchProof D) (hp : p'.depth = t.depth) (idxs : List Nat) (lv : List D)
     (hv : verifyBatch merge r idxs lv p' = .ok ()) :
-    ∃ lv0 p, t.proveBatch idxs = .ok (lv0, p) ∧ p'.nodes.length = p.nodes.length ∧
-      ∀ (j : Nat) (a : List D), p.nodes[j]? = some a → ∃ b, p'.nodes[j]? = some b ∧ a <+: b := by
+    t.proveBatch idxs = .ok (lv, p') := by
   obtain ⟨d, hd, hl, H⟩ := new_heap merge L t ht
   have hd64 : d < 64 := by
     rw [hd] at h64
@@ -305,7 +370,23 @@ theorem verify_batch_accepts_only_the_trees_nodes [Inhabited D] [DecidableEq D]
       · rename_i hne
         have : heapFn t 1 = r' := Classical.byContradiction fun hc => hne hc
         rw [hr', this]
-  exact getRoot_sound_nodes H inj hd64 p' (by rw [hp, heap_depth H]) idxs lv hg
+  obtain ⟨p, hpb, _, _, rfl⟩ :=
+    getRoot_sound_nodes H inj hd64 p' (by rw [hp, heap_depth H]) idxs lv hg
+  exact hpb
+
+/-- node-vector form: an accepted batch proof has the same number of node vectors as the proof
+`prove_batch` returns for these indexes, and each of its vectors EQUALS the corresponding vector of
+that proof (before fix f1ad895 only "begins with" held) -/
+theorem verify_batch_accepts_only_the_trees_nodes [Inhabited D] [DecidableEq D]
+    (merge : D → D → D) (inj : MergeInjective merge) (L : List D) (t : Tree D)
+    (ht : Tree.new merge L = .ok t) (h64 : L.length < 2 ^ 64) (r : D) (hr : t.root = .ok r)
+    (p' : BatchProof D) (hp : p'.depth = t.depth) (idxs : List Nat) (lv : List D)
+    (hv : verifyBatch merge r idxs lv p' = .ok ()) :
+    ∃ lv0 p, t.proveBatch idxs = .ok (lv0, p) ∧ p'.nodes.length = p.nodes.length ∧
+      ∀ (j : Nat) (a : List D), p.nodes[j]? = some a → p'.nodes[j]? = some a := by
+  have hpb :=
+    verify_batch_accepts_only_the_provers_proof merge inj L t ht h64 r hr p' hp idxs lv hv
+  exact ⟨lv, p', hpb, rfl, fun _ _ h => h⟩
 
 /-- hence: replacing any node of the proof returned by `prove_batch` (keeping the depth byte; the
 other nodes, the indexes and the leaves may be anything) makes `verify_batch` fail -/
@@ -326,15 +407,94 @@ theorem batch_wrong_proof_node_rejected [Inhabited D] [DecidableEq D] (merge : D
       verify_batch_accepts_only_the_trees_nodes merge inj L t ht h64 r hr p' hp idxs lv hv
     rw [hpb] at hpb1
     obtain ⟨_, rfl⟩ := Prod.mk.inj (Res.ok.inj hpb1)
-    obtain ⟨b', hb', ⟨tl, htl⟩⟩ := hpre j a ha
+    have hb' := hpre j a ha
     rw [hb] at hb'
-    have : b = b' := Option.some.inj hb'
+    have : b = a := Option.some.inj hb'
     subst this
-    exfalso
-    apply hbad
-    rw [← htl]
-    have hm : m < a.length := (List.getElem?_eq_some_iff.mp hx).1
-    rw [List.getElem?_append_left hm]; exact hx
+    exact absurd hx hbad
+
+/-- and: ANY batch proof other than the one `prove_batch` returns for these indexes (same depth
+byte) is rejected by `verify_batch`, whatever leaves accompany it — substituted, dropped, appended
+or reordered nodes alike -/
+theorem batch_any_other_proof_rejected [Inhabited D] [DecidableEq D] (merge : D → D → D)
+    (inj : MergeInjective merge) (L : List D) (t : Tree D) (ht : Tree.new merge L = .ok t)
+    (h64 : L.length < 2 ^ 64) (r : D) (hr : t.root = .ok r) (idxs : List Nat) (lv0 : List D)
+    (p : BatchProof D) (hpb : t.proveBatch idxs = .ok (lv0, p))
+    (p' : BatchProof D) (hp : p'.depth = t.depth) (hne : p' ≠ p) (lv : List D) :
+    ∃ e, verifyBatch merge r idxs lv p' = .err e := by
+  cases hv : verifyBatch merge r idxs lv p' with
+  | err e => exact ⟨e, rfl⟩
+  | abort => exact absurd hv (verifyBatch_noabort merge r p' idxs lv)
+  | ok u =>
+    cases u
+    have hpb1 :=
+      verify_batch_accepts_only_the_provers_proof merge inj L t ht h64 r hr p' hp idxs lv hv
+    rw [hpb] at hpb1
+    exact absurd (Prod.mk.inj (Res.ok.inj hpb1)).2.symm hne
+
+/-! ## Every supplied node must be consumed (fix f1ad895) — no tree, no hypothesis on `merge` -/
+
+/-- THE NEW GUARANTEE.  For ANY batch proof `p`, index list and leaf list that `get_root` accepts
+(any digest type, any `merge`, any depth byte, not necessarily produced by `prove_batch`): appending
+ANY non-empty list of digests to ANY ONE of its node vectors makes `get_root` return
+`InvalidProof`, and so does `verify_batch` against any root. -/
+theorem get_root_rejects_appended_nodes [DecidableEq D] (merge : D → D → D) (p : BatchProof D)
+    (idxs : List Nat) (lv : List D) (root : D) (hg : p.getRoot merge idxs lv = .ok root)
+    (j : Nat) (hj : j < p.nodes.length) (extra : List D) (hne : extra ≠ []) (anyRoot : D) :
+    (⟨p.nodes.modify j (· ++ extra), p.depth⟩ : BatchProof D).getRoot merge idxs lv
+        = .err .invalid ∧
+    verifyBatch merge anyRoot idxs lv ⟨p.nodes.modify j (· ++ extra), p.depth⟩ = .err .invalid := by
+  have hg' : (⟨p.nodes.modify j (· ++ extra), p.depth⟩ : BatchProof D).getRoot merge idxs lv
+      = .err .invalid := by
+    apply getRoot_extension_rejected merge p ⟨p.nodes.modify j (· ++ extra), p.depth⟩ idxs lv root
+      hg rfl (by simp) (Ext.modify_append p.nodes j extra)
+    intro heq
+    obtain ⟨x, hx⟩ : ∃ x, p.nodes[j]? = some x := ⟨p.nodes[j], by simp [hj]⟩
+    have h2 : (p.nodes.modify j (· ++ extra))[j]? = p.nodes[j]? := by
+      have := congrArg BatchProof.nodes heq
+      simp only at this
+      rw [this]
+    rw [List.getElem?_modify, hx] at h2
+    simp at h2
+    exact hne h2
+  exact ⟨hg', by simp [verifyBatch, hg']⟩
+
+/-- several vectors at once: ANY proper extension of an accepted proof — same depth byte, same
+number of node vectors, every vector of `p` a prefix of the corresponding vector of `p'`, and
+`p' ≠ p` — is rejected with `InvalidProof` -/
+theorem get_root_rejects_proper_extensions [DecidableEq D] (merge : D → D → D)
+    (p p' : BatchProof D) (idxs : List Nat) (lv : List D) (root : D)
+    (hg : p.getRoot merge idxs lv = .ok root) (hd : p'.depth = p.depth)
+    (hl : p'.nodes.length = p.nodes.length)
+    (hext : ∀ (j : Nat) (a : List D), p.nodes[j]? = some a →
+      ∃ b, p'.nodes[j]? = some b ∧ a <+: b)
+    (hne : p' ≠ p) (anyRoot : D) :
+    p'.getRoot merge idxs lv = .err .invalid ∧
+    verifyBatch merge anyRoot idxs lv p' = .err .invalid := by
+  have hg' := getRoot_extension_rejected merge p p' idxs lv root hg hd hl hext hne
+  exact ⟨hg', by simp [verifyBatch, hg']⟩
+
+/-- NON-MALLEABILITY in the vector lengths.  If `get_root` accepts two proofs with the same depth
+byte for the same indexes and leaves, and at every position the two node vectors are comparable in
+the prefix order (one is the other with digests dropped from / appended to its END — the direction
+may differ from position to position, so "one vector longer, another one shorter" is covered), then
+the two proofs are EQUAL; in particular they carry the same number of digests in every vector. -/
+theorem get_root_accepts_one_length_variant (merge : D → D → D) (p p' : BatchProof D)
+    (idxs : List Nat) (lv : List D) (root root' : D)
+    (hg : p.getRoot merge idxs lv = .ok root) (hg' : p'.getRoot merge idxs lv = .ok root')
+    (hd : p'.depth = p.depth)
+    (hcmp : ∀ (j : Nat) (a b : List D), p.nodes[j]? = some a → p'.nodes[j]? = some b →
+      a <+: b ∨ b <+: a) :
+    p' = p :=
+  getRoot_unique_lengths merge p p' idxs lv root root' hg hg' hd hcmp
+
+/-- what an accepted run has consumed: one pointer per node vector, each equal to the vector's
+length, i.e. the number of digests in every vector is determined by the run -/
+theorem get_root_accepts_only_consumed_proofs (merge : D → D → D) (p : BatchProof D)
+    (idxs : List Nat) (lv : List D) (root : D) (hg : p.getRoot merge idxs lv = .ok root) :
+    ∃ st, grRun merge p idxs lv = .ok st ∧ st.ptrs = p.nodes.map List.length ∧
+      AMap.get st.v 1 = some root :=
+  (getRoot_ok_inv merge p idxs lv root hg).2.2
 
 /-! ## `from_single_proofs`: the documented panics -/
 
@@ -374,6 +534,42 @@ example :
     verify (fun a b : Nat => 10 * a + b) 154 3 3 [4, 12] = .err .invalid ∧
     verify (fun a b : Nat => 10 * a + b) 154 6 3 [4, 12] = .ok () ∧
     verify (fun a b : Nat => 10 * a + b) 154 2 3 [] = .abort := by
+  refine ⟨by decide, by decide, by decide, by decide, by decide, by decide⟩
+
+/-- the consumption theorems are not vacuous (`merge a b = 10·a + b`, leaves 1..4, root 154): the
+honest proof of index 0 is `[[2, 34]]` and is accepted; with a digest appended it is refused; with
+two node vectors (indexes 0 and 3) an extra digest on the first or several on the last vector are
+refused; a proof whose vectors are all empty (all four leaves opened) is accepted, and refused as
+soon as one vector carries a digest that nothing consumes -/
+example :
+    (⟨[[2, 34]], 2⟩ : BatchProof Nat).getRoot (fun a b => 10 * a + b) [0] [1] = .ok 154 ∧
+    (⟨[[2, 34, 34]], 2⟩ : BatchProof Nat).getRoot (fun a b => 10 * a + b) [0] [1] = .err .invalid ∧
+    (⟨[[2], [3]], 2⟩ : BatchProof Nat).getRoot (fun a b => 10 * a + b) [0, 3] [1, 4] = .ok 154 ∧
+    (⟨[[2, 7], [3]], 2⟩ : BatchProof Nat).getRoot (fun a b => 10 * a + b) [0, 3] [1, 4]
+      = .err .invalid ∧
+    (⟨[[2], [3, 7, 8]], 2⟩ : BatchProof Nat).getRoot (fun a b => 10 * a + b) [0, 3] [1, 4]
+      = .err .invalid ∧
+    (⟨[[], []], 2⟩ : BatchProof Nat).getRoot (fun a b => 10 * a + b) [0, 1, 2, 3] [1, 2, 3, 4]
+      = .ok 154 ∧
+    (⟨[[], [9]], 2⟩ : BatchProof Nat).getRoot (fun a b => 10 * a + b) [0, 1, 2, 3] [1, 2, 3, 4]
+      = .err .invalid := by
+  refine ⟨by decide, by decide, by decide, by decide, by decide, by decide, by decide⟩
+
+/-- the hypotheses of `get_root_rejects_appended_nodes` are satisfiable -/
+example : ∃ (p : BatchProof Nat) (idxs lv : List Nat) (root j : Nat) (extra : List Nat),
+    p.getRoot (fun a b => 10 * a + b) idxs lv = .ok root ∧ j < p.nodes.length ∧ extra ≠ [] :=
+  ⟨⟨[[2, 34]], 2⟩, [0], [1], 154, 0, [5], by decide, by decide, by decide⟩
+
+/-- leaf count (fix af69a4d) on the model: the honest opening of index 0 is accepted with its one
+leaf, refused with a surplus leaf and with none; the count check comes before the index checks -/
+example :
+    (⟨[[2, 34]], 2⟩ : BatchProof Nat).getRoot (fun a b => 10 * a + b) [0] [1] = .ok 154 ∧
+    (⟨[[2, 34]], 2⟩ : BatchProof Nat).getRoot (fun a b => 10 * a + b) [0] [1, 1] = .err .invalid ∧
+    (⟨[[2, 34]], 2⟩ : BatchProof Nat).getRoot (fun a b => 10 * a + b) [0] [] = .err .invalid ∧
+    (⟨[[2, 34]], 2⟩ : BatchProof Nat).getRoot (fun a b => 10 * a + b) [0, 0] [1] = .err .invalid ∧
+    (⟨[[2, 34]], 2⟩ : BatchProof Nat).getRoot (fun a b => 10 * a + b) [9] [1, 1] = .err .invalid ∧
+    verifyBatch (fun a b => 10 * a + b) 154 [0] [1, 1] (⟨[[2, 34]], 2⟩ : BatchProof Nat)
+      = .err .invalid := by
   refine ⟨by decide, by decide, by decide, by decide, by decide, by decide⟩
 
 /-- malformed batch input on the model: errors, not aborts -/
